@@ -10,6 +10,7 @@ package gabi
 import (
 	"encoding/json"
 	"fmt"
+	gobig "math/big"
 	"os"
 	"path/filepath"
 	"strings"
@@ -346,7 +347,7 @@ func TestVF_C08_Mutator(t *testing.T) {
 		rec.Control(true, "")
 		for k := 0; k < rec.N(12, 24); k++ {
 			nops := rapid.IntRange(1, 3).Draw(rt, "nops")
-			mut, desc, err := vfh.MutateJSON(seed.doc, nops, seed.nBases, vfh.RapidChooser{T: rt})
+			mut, desc, err := vfh.MutateJSONWith(seed.doc, nops, seed.nBases, vfh.RapidChooser{T: rt}, seed.hostile())
 			if err != nil {
 				continue
 			}
@@ -528,7 +529,7 @@ func FuzzVF_C08_Mut(f *testing.F) {
 		}
 		seed := seeds[int(data[0])%len(seeds)]
 		ch := &vfh.ByteChooser{Data: data[2:]}
-		mut, desc, err := vfh.MutateJSON(seed.doc, 1+int(data[1])%3, seed.nBases, ch)
+		mut, desc, err := vfh.MutateJSONWith(seed.doc, 1+int(data[1])%3, seed.nBases, ch, seed.hostile())
 		if err != nil {
 			return
 		}
@@ -536,4 +537,17 @@ func FuzzVF_C08_Mut(f *testing.F) {
 			t.Fatalf("VF-VIOLATION %s mutations=%v", sig, desc)
 		}
 	})
+}
+
+// hostile: integers without an inverse modulo a key of the session, and their neighbours
+func (s *c08Seed) hostile() []*gobig.Int {
+	var out []*gobig.Int
+	for _, pk := range s.pks {
+		if len(out) >= 8 {
+			break
+		}
+		n := pk.N
+		out = append(out, new(big.Int).Set(n).Go(), new(big.Int).Lsh(n, 1).Go(), new(big.Int).Mul(n, bi(3)).Go(), new(big.Int).Sub(n, bi(1)).Go())
+	}
+	return out
 }
